@@ -430,6 +430,9 @@ func judge(r *vcommon.Run, cases []Case, obs map[int]*Obs) {
 		if os.Getenv("VERIF_E2E_TIMING") != "" && o.ConnS+o.ObsS+o.TearS > 6 {
 			fmt.Fprintf(os.Stderr, "slow %s: connect=%.1fs observe=%.1fs teardown=%.1fs tries=%d outcome=%s\n", c.key(), o.ConnS, o.ObsS, o.TearS, o.Tries, o.Outcome)
 		}
+		if o.TeardownNote != "" {
+			r.Note("case %s: %s", c.key(), o.TeardownNote)
+		}
 		r.Eval(1)
 		want := admits(users, c.Cred, c.Action, c.Path)
 		verdict := "reject"
